@@ -645,7 +645,9 @@ impl CanonicalizeContext {
 					// base, pairs of postscripts, and optionally mprescripts followed by pairs of prescripts
 					let i_prescripts = mathml.children().iter()
 							.position(|&child| name(&as_element(child)) == "mprescripts").unwrap_or(n_children);
-					if n_children == 0 || i_prescripts == 0 || i_prescripts % 2 == 0 ||
+					let n_prescripts = mathml.children().iter()
+							.filter(|&&child| name(&as_element(child)) == "mprescripts").count();
+					if n_children == 0 || i_prescripts == 0 || i_prescripts % 2 == 0 || n_prescripts > 1 ||
 					   (i_prescripts < n_children && (n_children - i_prescripts) % 2 == 0) {
 						bail!("{} has the wrong number of children:\n{}", element_name, mml_to_string(&mathml));
 					}
